@@ -126,6 +126,7 @@ Definition mbind {S A B} (m : M S A) (f : A -> M S B) : M S B :=
 Definition get {S} : M S S := fun s => (s, Ok s).
 Definition put {S} (s : S) : M S unit := fun _ => (s, Ok tt).
 Definition lift_o {S A} (o : outcome A) : M S A := fun s => (s, o).
+Definition modify {S} (f : S -> S) : M S unit := fun s => (f s, Ok tt).
 Declare Scope m_scope.
 Notation "x <- m ;; f" := (mbind m (fun x => f)) (at level 61, m at next level, right associativity) : m_scope.
 Notation "m ;;; f" := (mbind m (fun _ => f)) (at level 61, right associativity) : m_scope.
